@@ -53,8 +53,8 @@ Nat32(b, p) == ((b[p] * 256 + b[p+1]) * 256 + b[p+2]) * 256 + b[p+3]   \* only c
 Limbs(b, p, n) == [i \in 1..n |-> b[p + 2*(i-1)] * 256 + b[p + 2*(i-1) + 1]]
 
 \* Decode arguments: returns [ok, args, next]
-RECURSIVE DecArgs(_, _, _)
-DecArgs(b, tags, p) ==
+RECURSIVE DecArgsG(_, _, _, _)
+DecArgsG(b, tags, p, strict) ==
   IF tags = <<>> THEN [ok |-> TRUE, args |-> <<>>, next |-> p]
   ELSE LET t == TagOf(Head(tags))
            one ==
@@ -64,31 +64,34 @@ DecArgs(b, tags, p) ==
                [] t \in Str   -> LET z == FindNul(b, p) IN
                                  IF z = 0 THEN [ok |-> FALSE]
                                  ELSE LET n == p + (z - p) + Pad4(z - p) IN
-                                      IF n - 1 <= Len(b) /\ \A q \in z..(n-1) : b[q] = 0
+                                      IF n - 1 <= Len(b) /\ (strict => \A q \in z..(n-1) : b[q] = 0)
                                       THEN [ok |-> TRUE, a |-> [t |-> t, v |-> Slice(b,p,z-1), z |-> 0], n |-> n] ELSE [ok |-> FALSE]
                [] t = "b"     -> IF p + 3 > Len(b) \/ b[p] >= 128 THEN [ok |-> FALSE]
                                  ELSE LET L == Nat32(b,p)  n == p + 4 + L + PadTo4(L) IN
-                                      IF L <= Len(b) /\ n - 1 <= Len(b)
+                                      IF L <= Len(b) /\ n - 1 <= Len(b) /\ (strict => \A q \in (p+4+L)..(n-1) : b[q] = 0)
                                       THEN [ok |-> TRUE, a |-> [t |-> t, v |-> Slice(b,p+4,p+3+L), z |-> 0], n |-> n] ELSE [ok |-> FALSE]
                [] t \in NoPayload -> [ok |-> TRUE, a |-> [t |-> t, v |-> <<>>, z |-> 0], n |-> p]
                [] OTHER       -> [ok |-> TRUE, a |-> [t |-> "?", v |-> <<Head(tags)>>, z |-> 0], n |-> p]
        IN IF ~one.ok THEN [ok |-> FALSE, args |-> <<>>, next |-> p]
-          ELSE LET rest == DecArgs(b, Tail(tags), one.n) IN
+          ELSE LET rest == DecArgsG(b, Tail(tags), one.n, strict) IN
                [ok |-> rest.ok, args |-> <<one.a>> \o rest.args, next |-> rest.next]
 
-\* Decode a whole buffer: [ok, addr, args, len]
-Decode(b) ==
+\* Decode a whole buffer: [ok, addr, args, len, tagbytes].  strict = TRUE also demands that
+\* every padding byte is zero; strict = FALSE checks the structure only (a lenient decoder).
+DecodeG(b, strict) ==
   LET z1 == FindNul(b, 1) IN
   IF z1 = 0 \/ z1 = 1 THEN [ok |-> FALSE]
   ELSE LET c == z1 + Pad4(z1 - 1) IN         \* position of ','
-       IF c > Len(b) \/ b[c] # 44 \/ \E q \in z1..(c-1) : b[q] # 0 THEN [ok |-> FALSE]
+       IF c > Len(b) \/ b[c] # 44 \/ (\E q \in z1..(c-1) : b[q] # 0) THEN [ok |-> FALSE]
        ELSE LET z2 == FindNul(b, c) IN
             IF z2 = 0 THEN [ok |-> FALSE]
             ELSE LET p == c + (z2 - c) + Pad4(z2 - c) IN
-                 IF p - 1 > Len(b) \/ \E q \in z2..(p-1) : b[q] # 0 THEN [ok |-> FALSE]
-                 ELSE LET d == DecArgs(b, Slice(b, c+1, z2-1), p) IN
+                 IF p - 1 > Len(b) \/ (strict /\ \E q \in z2..(p-1) : b[q] # 0) THEN [ok |-> FALSE]
+                 ELSE LET d == DecArgsG(b, Slice(b, c+1, z2-1), p, strict) IN
                       IF ~d.ok THEN [ok |-> FALSE]
-                      ELSE [ok |-> TRUE, addr |-> Slice(b,1,z1-1), args |-> d.args, len |-> d.next - 1]
+                      ELSE [ok |-> TRUE, addr |-> Slice(b,1,z1-1), args |-> d.args, len |-> d.next - 1, tagbytes |-> Slice(b, c+1, z2-1)]
+Decode(b) == DecodeG(b, TRUE)
+DecodeLenient(b) == DecodeG(b, FALSE)
 NArgs(args) == Cardinality({i \in 1..Len(args) : args[i].t \notin {"[","]"}})
 WellFormed(b) == Decode(b).ok /\ Decode(b).len = Len(b)
 IsBundle(b) == Len(b) >= 8 /\ SubSeq(b, 1, 8) = <<35, 98, 117, 110, 100, 108, 101, 0>>
